@@ -8,7 +8,7 @@ import EaselModel.Buffer.Safe
   getline | fetchline | fetchlinestr | gettoken sep=<hex> | fetchtoken sep=<hex> | fetchtokenstr sep=<hex>
   read k=<n> | get | set k=<nused> | getoffset | setoffset o=<n> | setanchor o=<n> | setstable o=<n> | raise o=<n>
   tryset k= | trysetoffset o= | trysetanchor o= | trysetstable o=   (histories OUTSIDE the API contract: the op is executed
-      only if it respects the residual duties `SafeOp` in the current state of this side — the harness evaluates the same
+      only if it respects the caller duty `CallerOk` (only `tryset` can fail it: Set beyond the exposed bytes) in the current state of this side — the harness evaluates the same
       predicate on the real ESL_BUFFER —, otherwise the answer is `unsafe` and nothing happens; from the first try-op on
       the `spec=`/`valid=` side channel is dropped: outside the contract the specification is `Total`, not `specStep`)
 
@@ -94,7 +94,7 @@ def stepLine (st : Option DState) (line : String) : Option DState × String :=
     match st, parseOp ws with
     | some d, some op =>
       let isTry := (ws.head?.getD "").startsWith "try"
-      if isTry && !safeB d.s op then
+      if isTry && !callerOkB d.s op then
         (some { d with s := { d.s with lastp := none }, wild := true }, "unsafe")
       else
       let d := if isTry then { d with wild := true } else d
